@@ -71,8 +71,16 @@ theorem feng2x2x2x2_local (a b : ℕ) (ha : a < 6) (hb : b < 6) :
       * (rdot 2 (tableVecR (upbFeng2x2x2x2.getD 1 []) a) (tableVecR (upbFeng2x2x2x2.getD 1 []) b)
       * (rdot 2 (tableVecR (upbFeng2x2x2x2.getD 2 []) a) (tableVecR (upbFeng2x2x2x2.getD 2 []) b)
       * rdot 2 (tableVecR (upbFeng2x2x2x2.getD 3 []) a) (tableVecR (upbFeng2x2x2x2.getD 3 []) b))) = if a = b then 1 else 0 := by
+  have i2 := inv_sqrt_mul_self 2 (by norm_num)
+  have i4 := inv_sqrt_mul_self 4 (by norm_num)
+  have h34 : Real.sqrt 3 / Real.sqrt 4 * (Real.sqrt 3 / Real.sqrt 4) = 3 / 4 := by
+    rw [div_mul_div_comm, Real.mul_self_sqrt (by norm_num), Real.mul_self_sqrt (by norm_num)]
   interval_cases a <;> interval_cases b <;>
     simp [rdot, tableVecR, upbFeng2x2x2x2, SAmp.val, sa, s0, s1, SAmp.zero, Finset.sum_range_succ]
+  all_goals first
+    | ring1
+    | (right; ring1)
+    | (simp only [i2, i4, h34]; norm_num)
 
 
 end Numqi.Catalogue
